@@ -463,6 +463,94 @@ theorem noStartB_spec (h : noStartB G = true) :
     decide_eq_false_iff_not] at h
   exact h pr (by rw [Array.mem_toList_iff]; exact Array.mem_of_getElem? hp)
 
+/-- What `itemSafeB` establishes for one item. -/
+structure ItemSafeOK (G : Grammar) (T : Tables) (s : Nat) (it : Item) (pr : Prod) : Prop where
+  gotoDef : it.d = 0 → it.p ≠ 0 → ∃ v, find T.gotos (s : Int) (pr.lhs : Int) = .hit v
+  startOnly : it.p = 0 → it.d = 0 → s = 0
+  s0 : s = 0 → it.d = 0
+
+theorem itemSafeB_spec {s : Nat} {it : Item} (h : itemSafeB G T s it = true) :
+    ∃ pr, G.prods[it.p]? = some pr ∧ ItemSafeOK G T s it pr := by
+  unfold itemSafeB at h
+  cases hp : G.prods[it.p]? with
+  | none => simp [hp] at h
+  | some pr =>
+    refine ⟨pr, rfl, ?_⟩
+    simp only [hp, Bool.and_eq_true, Bool.or_eq_true] at h
+    obtain ⟨⟨h2, h3⟩, h4⟩ := h
+    refine ⟨?_, ?_, ?_⟩
+    · intro hd hp0
+      rcases h2 with (h2 | h2) | h2
+      · simp [hd] at h2
+      · simp at h2; exact absurd h2 hp0
+      · cases hf : find T.gotos (s : Int) (pr.lhs : Int) with
+        | hit v => exact ⟨v, rfl⟩
+        | miss => simp [hf] at h2
+        | oob => simp [hf] at h2
+    · intro a b
+      rcases h3 with h3 | h3
+      · simp [a, b] at h3
+      · simpa using h3
+    · intro a
+      rcases h4 with h4 | h4
+      · simp [a] at h4
+      · simpa using h4
+
+structure StateSafeOK (G : Grammar) (nTerms nRules : Nat) (T : Tables)
+    (cert : Array (List Item)) (s : Nat) : Prop where
+  items : ∀ it ∈ itemsOf cert s, ∃ pr, G.prods[it.p]? = some pr ∧ ItemSafeOK G T s it pr
+  arow : ∃ row, rowOf T.actions (s : Int) = some row ∧ nodupKeys row = true ∧
+    ∀ e ∈ row, actEntryB G nTerms cert s e.1 e.2 = true
+  grow : ∃ row, rowOf T.gotos (s : Int) = some row ∧ nodupKeys row = true ∧
+    ∀ e ∈ row, gotoEntryB G nRules cert s e.1 e.2 = true
+
+/-- What `checkSafeB` establishes (also a consequence of `checkB`). -/
+structure SafeOK (G : Grammar) (nTerms nRules : Nat) (T : Tables) (cert : Array (List Item)) :
+    Prop where
+  prod0 : prod0B G = true
+  prods : prodsB G nTerms nRules T = true
+  nonempty : 0 < cert.size
+  states : ∀ s, s < cert.size → StateSafeOK G nTerms nRules T cert s
+
+theorem stateSafeB_spec {s : Nat} (h : stateSafeB G nTerms nRules T cert s = true) :
+    StateSafeOK G nTerms nRules T cert s := by
+  simp only [stateSafeB, Bool.and_eq_true, List.all_eq_true] at h
+  obtain ⟨⟨h1, h2⟩, h3⟩ := h
+  refine ⟨fun it hit => itemSafeB_spec (h1 it hit), ?_, ?_⟩
+  · cases hr : rowOf T.actions (s : Int) with
+    | none => simp [hr] at h2
+    | some row =>
+      simp only [hr, Bool.and_eq_true, List.all_eq_true] at h2
+      exact ⟨row, rfl, h2.1, h2.2⟩
+  · cases hr : rowOf T.gotos (s : Int) with
+    | none => simp [hr] at h3
+    | some row =>
+      simp only [hr, Bool.and_eq_true, List.all_eq_true] at h3
+      exact ⟨row, rfl, h3.1, h3.2⟩
+
+theorem checkSafeB_spec (h : checkSafeB G nTerms nRules T cert = true) :
+    SafeOK G nTerms nRules T cert := by
+  simp only [checkSafeB, Bool.and_eq_true, List.all_eq_true, List.mem_range,
+    decide_eq_true_eq] at h
+  obtain ⟨⟨⟨h1, h2⟩, h3⟩, h4⟩ := h
+  exact ⟨h1, h2, h3, fun s hs => stateSafeB_spec (h4 s hs)⟩
+
+theorem checkSafe_ok_iff :
+    checkSafe G nTerms nRules T cert = .ok () ↔ checkSafeB G nTerms nRules T cert = true := by
+  unfold checkSafe
+  by_cases h : checkSafeB G nTerms nRules T cert = true <;> simp [h]
+
+theorem CheckOK.toSafeOK (h : CheckOK G nTerms nRules T cert) : SafeOK G nTerms nRules T cert where
+  prod0 := h.prod0
+  prods := h.prods
+  nonempty := mem_itemsOf h.start
+  states := fun s hs =>
+    { items := fun it hit => by
+        obtain ⟨pr, hp, ok⟩ := itemB_spec ((h.states s hs).items it hit).2
+        exact ⟨pr, hp, ⟨ok.gotoDef, ok.startOnly, ok.s0⟩⟩
+      arow := (h.states s hs).arow
+      grow := (h.states s hs).grow }
+
 theorem valid_of_checkOK (h : CheckOK G nTerms nRules T cert) :
     Valid G (autoOf T cert) (firstOf (firstFix G nTerms nRules)) where
   prod0 := prod0B_spec h.prod0
@@ -511,12 +599,12 @@ theorem valid_of_checkOK (h : CheckOK G nTerms nRules T cert) :
     simpa [eof, decodeAct] using this
   noStart := noStartB_spec h.noStart
 
-theorem safe_of_checkOK (h : CheckOK G nTerms nRules T cert) : Safe G (autoOf T cert) where
+theorem safe_of_safeOK (h : SafeOK G nTerms nRules T cert) : Safe G (autoOf T cert) where
   prod0 := prod0B_spec h.prod0
   s0 := by
     intro it hit
     have hs := mem_itemsOf hit
-    obtain ⟨pr', _, ok⟩ := itemB_spec ((h.states 0 hs).items it hit).2
+    obtain ⟨pr', _, ok⟩ := (h.states 0 hs).items it hit
     exact ok.s0 rfl
   noIn := by
     intro s X htr
@@ -593,7 +681,7 @@ theorem safe_of_checkOK (h : CheckOK G nTerms nRules T cert) : Safe G (autoOf T 
   startOnly := by
     intro s a hit
     have hs := mem_itemsOf hit
-    obtain ⟨pr', _, ok⟩ := itemB_spec ((h.states s hs).items _ hit).2
+    obtain ⟨pr', _, ok⟩ := (h.states s hs).items _ hit
     exact ok.startOnly rfl rfl
   noShiftEof := by
     intro s s' hact
@@ -605,10 +693,18 @@ theorem safe_of_checkOK (h : CheckOK G nTerms nRules T cert) : Safe G (autoOf T 
   gotoDef := by
     intro s it pr hit hd hp0 hp
     have hs := mem_itemsOf hit
-    obtain ⟨pr', hp', ok⟩ := itemB_spec ((h.states s hs).items it hit).2
+    obtain ⟨pr', hp', ok⟩ := (h.states s hs).items it hit
     rw [hp] at hp'; cases hp'
     obtain ⟨v, hf⟩ := ok.gotoDef hd hp0
     exact ⟨v.toNat, goto_of_find hs hf⟩
+
+theorem safe_of_checkOK (h : CheckOK G nTerms nRules T cert) : Safe G (autoOf T cert) :=
+  safe_of_safeOK h.toSafeOK
+
+/-- Soundness of the soundness-only validator. -/
+theorem checkSafe_sound (h : checkSafe G nTerms nRules T cert = .ok ()) :
+    Safe G (autoOf T cert) :=
+  safe_of_safeOK (checkSafeB_spec (checkSafe_ok_iff.mp h))
 
 /-- Soundness of the validator. -/
 theorem check_sound (h : check G nTerms nRules T cert = .ok ()) :
